@@ -989,7 +989,9 @@ func (c *Check) accumulatorsStartEmpty(rule string, fns ...string) {
 			}
 		}
 	}
-	c.floor(rule, n, 1, "append accumulators")
+	if n == 0 {
+		c.ok(rule, "", "append accumulators", "-", "no slice is grown by append in a loop in the named functions (pre-sized or index-filled results are covered by their own rules)")
+	}
 }
 
 // attrErrData: the data of an attribute-based fallback NOTIFICATION is the
@@ -1047,5 +1049,60 @@ func (c *Check) attrErrData(rule string) {
 			}
 		}
 		c.require(ok, rule, "notifDataForAttrBasedErr", fmt.Sprintf("extended length=%v", ext), p.Pos(fn.Pos()), "data = type code, length, value — "+detail)
+	}
+}
+
+// passiveOption: a peer is passive exactly when WithPassive was given.
+func (c *Check) passiveOption(rule string) {
+	p := c.P
+	if fn := p.Fn("defaultPeerOptions"); fn != nil {
+		a := NewAnalysis(p, fn)
+		a.Run()
+		ok := len(a.Returns) > 0
+		for _, r := range a.Returns {
+			v := mkField(r.Results[0], "passive", 0, nil)
+			if cv, isC := r.State.rangeOf(v).IsConst(); !isC || cv != 0 {
+				ok = false
+			}
+		}
+		c.require(ok, rule, "defaultPeerOptions", "peers are active by default", p.Pos(fn.Pos()), "defaultPeerOptions().passive is false: a peer added without WithPassive dials out")
+	}
+	if fn := p.Fn("WithPassive"); fn != nil {
+		ok := false
+		for _, g := range withAnon(fn) {
+			if g == fn || len(g.Params) != 1 {
+				continue
+			}
+			a := NewAnalysis(p, g)
+			a.Run()
+			o := paramExpr(g, 0)
+			for _, r := range a.Returns {
+				if v := p.loadField(r.State, o, "peerOptions", "passive"); v != nil {
+					if cv, isC := r.State.rangeOf(v).IsConst(); isC && cv == 1 {
+						ok = true
+					}
+				}
+			}
+		}
+		if !ok {
+			// a named setter handed to the option constructor
+			for _, cl := range p.callsIn(fn, func(string) bool { return true }) {
+				for _, arg := range cl.Common().Args {
+					if g := p.funcValueOf(arg); g != nil && len(g.Params) == 1 {
+						a := NewAnalysis(p, g)
+						a.Run()
+						o := paramExpr(g, 0)
+						for _, r := range a.Returns {
+							if v := p.loadField(r.State, o, "peerOptions", "passive"); v != nil {
+								if cv, isC := r.State.rangeOf(v).IsConst(); isC && cv == 1 {
+									ok = true
+								}
+							}
+						}
+					}
+				}
+			}
+		}
+		c.require(ok, rule, "WithPassive", "sets passive", p.Pos(fn.Pos()), "the option WithPassive returns sets peerOptions.passive to true")
 	}
 }
